@@ -40,8 +40,8 @@ def PS (L : List Ev) (s : Sess) : Prop := PA s ∧ sig s.trace = L
 theorem PS_io (L : List Ev) : ClosedIO (PS L) where
   hs := fun s ⟨a, b⟩ => ⟨PA_io.hs s a, b⟩
   fromBuf := fun s o u rest ⟨a, b⟩ hb => ⟨PA_io.fromBuf s o u rest a hb, (sig_skip _ _ rfl).trans b⟩
-  fromTls := fun s rest ⟨a, b⟩ ht => ⟨PA_io.fromTls s rest a ht, (sig_skip _ _ rfl).trans b⟩
-  fromClear := fun s bf rest ⟨a, b⟩ ht => ⟨PA_io.fromClear s bf rest a ht, (sig_skip _ _ rfl).trans b⟩
+  fromTls := fun s u rest ⟨a, b⟩ ht hb hp => ⟨PA_io.fromTls s u rest a ht hb hp, (sig_skip _ _ rfl).trans b⟩
+  fromClear := fun s u us rest ⟨a, b⟩ ht hb hp => ⟨PA_io.fromClear s u us rest a ht hb hp, (sig_skip _ _ rfl).trans b⟩
 
 theorem PS_neg (L : List Ev) : ClosedNeg (PS L) where
   wHdr := fun s ⟨a, b⟩ => ⟨PA_neg.wHdr s a, (sig_skip _ _ (by rw [a.1]; rfl)).trans b⟩
@@ -60,8 +60,8 @@ def SecP (s : Sess) : Prop := has s.state Secure = true
 theorem SecP_io : ClosedIO SecP where
   hs := fun s a => a
   fromBuf := fun s o u rest a _ => a
-  fromTls := fun s rest a _ => a
-  fromClear := fun s bf rest a _ => a
+  fromTls := fun s u rest a _ _ _ => a
+  fromClear := fun s u us rest a _ _ _ => a
 
 theorem startTLS_not_eligible_secured :
     ∀ st : Mask, has st Secure = true → eligible st startTLS.nec startTLS.proh = false := by decide
@@ -261,14 +261,14 @@ def CSF (st0 : Mask) (L : List Ev) (s : Sess) : Prop := CS st0 L s ∧ s.first =
 theorem CS_io (st0 : Mask) (L : List Ev) : ClosedIO (CS st0 L) where
   hs := fun s ⟨a, b⟩ => ⟨(ClearPre_io st0).hs s a, b⟩
   fromBuf := fun s o u rest ⟨a, b⟩ hb => ⟨(ClearPre_io st0).fromBuf s o u rest a hb, (sig_skip _ _ rfl).trans b⟩
-  fromTls := fun s rest ⟨a, b⟩ ht => ⟨(ClearPre_io st0).fromTls s rest a ht, (sig_skip _ _ rfl).trans b⟩
-  fromClear := fun s bf rest ⟨a, b⟩ ht => ⟨(ClearPre_io st0).fromClear s bf rest a ht, (sig_skip _ _ rfl).trans b⟩
+  fromTls := fun s u rest ⟨a, b⟩ ht hb hp => ⟨(ClearPre_io st0).fromTls s u rest a ht hb hp, (sig_skip _ _ rfl).trans b⟩
+  fromClear := fun s u us rest ⟨a, b⟩ ht hb hp => ⟨(ClearPre_io st0).fromClear s u us rest a ht hb hp, (sig_skip _ _ rfl).trans b⟩
 
 theorem CSF_io (st0 : Mask) (L : List Ev) : ClosedIO (CSF st0 L) where
   hs := fun s ⟨a, b⟩ => ⟨(CS_io st0 L).hs s a, b⟩
   fromBuf := fun s o u rest ⟨a, b⟩ hb => ⟨(CS_io st0 L).fromBuf s o u rest a hb, b⟩
-  fromTls := fun s rest ⟨a, b⟩ ht => ⟨(CS_io st0 L).fromTls s rest a ht, b⟩
-  fromClear := fun s bf rest ⟨a, b⟩ ht => ⟨(CS_io st0 L).fromClear s bf rest a ht, b⟩
+  fromTls := fun s u rest ⟨a, b⟩ ht hb hp => ⟨(CS_io st0 L).fromTls s u rest a ht hb hp, b⟩
+  fromClear := fun s u us rest ⟨a, b⟩ ht hb hp => ⟨(CS_io st0 L).fromClear s u us rest a ht hb hp, b⟩
 
 /-- a write that turns `P` into `Q` -/
 theorem write_both {P Q : Sess → Prop} (h : ClosedIO P) (e : Bool → Ev)
